@@ -143,7 +143,12 @@ class SyncedDict(SyncedCollection, MutableMapping):
                     else:
                         if new_value == existing:
                             continue
-                        if _sc_resolver.get_type(existing) == "SYNCEDCOLLECTION":
+                        # ``None`` means "leave unchanged" to _update, so a
+                        # nested collection replaced by None must be reassigned.
+                        if (
+                            new_value is not None
+                            and _sc_resolver.get_type(existing) == "SYNCEDCOLLECTION"
+                        ):
                             try:
                                 existing._update(new_value)
                                 continue
